@@ -44,12 +44,15 @@ mod real {
 
 #[cfg(not(feature = "rayonstub"))]
 pub fn with_schedule<R: Send, F: FnOnce() -> R + Send>(seed: u64, f: F) -> R {
+    // real thread pool: blocks cross threads, the per-thread allocation tracker must be off
+    let _ = crate::alloc_track::disarm();
     let p = &real::pools()[(seed % real::SIZES.len() as u64) as usize];
     p.install(f)
 }
 
 #[cfg(not(feature = "rayonstub"))]
 pub fn arm(ctx: &mut Ctx) {
+    let _ = crate::alloc_track::disarm();
     ctx.count("fault:real-rayon-global-pool");
 }
 
